@@ -10,9 +10,12 @@ modules and submodules, targets of every kind, and the error variants):
        a pair of runs that differ is the replay;
  (iii) the model run with several `order` arguments (the explicit map-iteration order of the model) must agree
        with itself: a test of theorem C07_T2 on the extracted code.
-Every clean implementation result must also have an empty `treeviol` and no entry with augments left (`naugments`);
-schemas built with an error variant (missing target, leaf target, conflicting pair, bad step under an rpc) must be
-reported as errors by the implementation."""
+Every clean implementation result must also have an empty `treeviol`, no entry with augments left (`naugments`) and
+(iv) every node each augment defines below its target exactly once, attributed to the augmenting module's namespace
+(an oracle on the implementation's dump alone); schemas built with an error variant (missing target, leaf target,
+conflicting pair, bad step under an rpc) must be reported as errors, schemas whose augments all have existing targets
+must resolve.  Augment arguments are absolute schema node identifiers throughout: a relative one is outside the YANG
+grammar (the implementation starts Find at the augment entry itself, which the model does not represent)."""
 import itertools
 import json
 import os
@@ -22,7 +25,6 @@ import re
 import lib
 from props import schema_gen as sg
 
-SIG_IC = "augment.after-fixchoice-single-pass"
 RE_MAUG = re.compile(r"maug(\d)")
 
 
@@ -422,10 +424,33 @@ def summarize(st, txt):
 
 
 # ------------------------------------------------------------------ the run
+def corpus():
+    """witnesses of the two repaired defects (D63: the pass after FixChoice was a single pass that still applied augments;
+    D64: an unprefixed absolute path in a submodule was resolved in the submodule's private tree) and of the error classes"""
+    out = []
+    a = mk("a", "a")
+    a["body"] = [("choice", "ch", None, None, None, [cont("x", [leaf("y")])])]
+    a["augments"] = [("/a:ch/a:x/a:x/a:n", [leaf("z")]), ("/a:ch/a:x/a:x", [cont("n")])]
+    out.append(([a], dict(kinds=["implicit-case-path"], chains=[2], errors=[], ic=True, expect="clean"), "corpus-D63"))
+    a2 = mk("a", "a")
+    a2["body"] = [("choice", "ch", None, None, None, [cont("x", [leaf("y")])])]
+    a2["augments"] = [("/a:ch/a:x/a:x", [cont("n")])]
+    b2 = mk("maug1", "b", imports=[("a", "a")])
+    b2["augments"] = [("/a:ch/a:x/a:x/a:n", [cont("k", [leaf("z")])])]
+    c2 = mk("maug2", "c", imports=[("a", "a")])
+    c2["augments"] = [("/a:ch/a:x/a:x/a:n/a:k", [leaf("w")])]
+    out.append(([a2, b2, c2], dict(kinds=["implicit-case-path"], chains=[3], errors=[], ic=True, expect="clean"), "corpus-D63"))
+    for tgt in (["sc"], ["c"], ["n"], ["r", "input"]):
+        t, ts = target_module()
+        ts["augments"].append((path_of("t", tgt, "none"), [leaf("zz"), cont("zc", [leaf("zl")])]))
+        out.append(([t, ts], dict(kinds=["unprefixed"], chains=[1], errors=[], ic=False, expect="clean"), "corpus-D64"))
+    return out
+
+
 def gen(tier, seed):
     rnd = random.Random(seed)
-    out = []   # (schema, meta, origin)
-    n = 70 if tier == "quick" else 900
+    out = corpus()   # (schema, meta, origin)
+    n = 500 if tier == "quick" else 5000
     # chains of every length on every target kind
     for kind in sorted(TARGETS):
         for k in (1, 2, 3, 4, 5, 6):
@@ -452,24 +477,24 @@ def gen(tier, seed):
         out.append(g.schema() + ("mix",))
     # error variants, alone and mixed with good chains
     for e in ["missing", "leaf", "rpc-bad-step", "conflict", "conflict-existing"]:
-        for _ in range(6 if tier == "quick" else 60):
+        for _ in range(40 if tier == "quick" else 400):
             g = AGen(rnd)
             out.append(g.schema(errors=[e], n_chains=rnd.choice([1, 1, 2])) + ("error",))
     # paths through the implicit case (applied only by the pass after FixChoice)
-    for _ in range(10 if tier == "quick" else 80):
+    for _ in range(120 if tier == "quick" else 1200):
         g = AGen(rnd)
         out.append(g.schema(ic=True, n_chains=1, chain_len=rnd.choice([1, 2, 3])) + ("implicit-case",))
     # unprefixed paths (the names of the current module): from the module itself and from its submodule
-    for _ in range(8 if tier == "quick" else 60):
-        g = AGen(rnd)
-        mods, owners = g.modules(rnd.randint(0, 1))
-        meta = dict(kinds=["unprefixed"], chains=[1], errors=[], ic=False)
-        owner = rnd.choice(owners[:2])
-        steps = rnd.choice([["c"], ["li"], ["n"], ["sc"], ["r", "input"], ["cu", "gc"]])
-        owner[0]["augments"].append((path_of("t", steps, "none"), [leaf(g.fresh("ul")), cont(g.fresh("ux"), [leaf(g.fresh("ul"))])]))
-        out.append((mods, meta, "unprefixed-from-" + ("submodule" if owner[0]["belongs"] else "module")))
+    for oi in (0, 1):
+        for steps in (["c"], ["li"], ["n"], ["sc"], ["r", "input"], ["cu", "gc"], ["ch", "ca"]):
+            g = AGen(rnd)
+            mods, owners = g.modules(rnd.randint(0, 1))
+            meta = dict(kinds=["unprefixed"], chains=[1], errors=[], ic=False)
+            owner = owners[oi]
+            owner[0]["augments"].append((path_of("t", steps, "none"), [leaf(g.fresh("ul")), cont(g.fresh("ux"), [leaf(g.fresh("ul"))])]))
+            out.append((mods, meta, "unprefixed-from-" + ("submodule" if owner[0]["belongs"] else "module")))
     # the shared random generator, augment-heavy
-    for _ in range(40 if tier == "quick" else 500):
+    for _ in range(150 if tier == "quick" else 1500):
         s = sg.random_schema(rnd, p_aug=1.0, p_dev=0.0, n_modules=rnd.randint(2, 4))
         out.append((s, dict(kinds=["random"], chains=[], errors=[], ic=False), "random_schema"))
     return rnd, out
@@ -500,8 +525,6 @@ def model_orders(schema, rnd, n):
 
 def run(res, tier, seed, proof):
     rnd, items = gen(tier, seed)
-    known, _ = lib.load_findings()
-    known_sigs = {k["sig"] for k in known if k["property"] == "C07"}
     go_lines, ml_lines, idx = [], [], []
     allv = []
     for si, (schema, meta, origin) in enumerate(items):
@@ -532,9 +555,6 @@ def run(res, tier, seed, proof):
     reported = {}
 
     def report(sig, cls, what, rep):
-        if sig and sig in known_sigs:
-            res.known(sig, what)
-            return
         reported[cls] = reported.get(cls, 0) + 1
         if reported[cls] <= 2:
             res.violation(what, rep)
@@ -552,7 +572,7 @@ def run(res, tier, seed, proof):
             hist["by_error"][e] = hist["by_error"].get(e, 0) + 1
         ic = crosses_implicit_case(schema)
         hist["crosses_implicit_case"] += 1 if ic else 0
-        sig = SIG_IC if ic else None
+        sig = None
         base = dict(kind="c07", schema=schema, meta=meta, origin=origin)
         gos = []
         for vname, o, line in d["go"]:
@@ -619,7 +639,7 @@ def run(res, tier, seed, proof):
                            dict(base, what_kind="clean-defect", order=o, variant=vname, schema=schemas[vname], defects=bad[:10]))
                     break
         # a schema whose augments all have existing targets that can hold children must resolve
-        if (not meta["errors"] and not meta["ic"] and origin != "random_schema"
+        if (not meta["errors"] and origin != "random_schema"
                 and any(st == "err" for vname, o, st, txt, j, line in gos)):
             hist["valid_rejected"] = hist.get("valid_rejected", 0) + 1
             g0 = next(x for x in gos if x[2] == "err")
